@@ -30,7 +30,7 @@ ASSUMPTIONS = [
 MIN_NONTRIVIAL = {"quick": 1500, "thorough": 20000}
 REQUIRED_COUNTERS = ["placements_vs_reference", "order_pairs_compared", "subprocess_digests", "contacts_vs_rule",
                      "disruption_checks"]
-SHARDS = {"quick": 8, "thorough": 16}
+SHARDS = {"quick": 16, "thorough": 16}
 TIMEOUT = {"quick": 600, "thorough": 3600}
 
 NODESETS = [
@@ -78,7 +78,17 @@ def tie_mod3(s, seed):
     return sum(map(ord, s)) % 3
 
 
-HASHES = {"murmur3": None, "const": tie_const, "len": tie_len, "mod3": tie_mod3}
+def wide64(s, seed):
+    """a 64-bit hash function (a plug-in such as xxhash64 / mmh3.hash64): scores above 2**32 must keep their order"""
+    return int.from_bytes(hashlib.blake2b(s.encode("utf8", "surrogatepass"), digest_size=8).digest(), "big")
+
+
+def hi32(s, seed):
+    """all the information in the bits above 2**32"""
+    return wide64(s, seed) >> 32 << 32
+
+
+HASHES = {"murmur3": None, "const": tie_const, "len": tie_len, "mod3": tie_mod3, "wide64": wide64, "hi32": hi32}
 
 
 def make(rendezvous, nodes, hname):
@@ -147,7 +157,9 @@ def check_histories(res, rendezvous, universe, keys, hname, maxlen, rng, exhaust
         seqs = itertools.chain.from_iterable(itertools.product(events, repeat=L) for L in range(1, maxlen + 1))
     else:
         seqs = (tuple(rng.choice(events) for _ in range(rng.randrange(1, maxlen + 1))) for _ in range(samples))
-    for si_, seq in enumerate(seqs):
+    for sj_, seq in enumerate(s_ for s_ in seqs for _ in (0, 1)):
+        si_, mode = sj_ // 2, sj_ % 2
+        seq0 = seq
         h = rendezvous.RendezvousHash() if HASHES[hname] is None else rendezvous.RendezvousHash(hash_function=HASHES[hname])
         cur = []
         if si_ % 3 == 1:
@@ -159,6 +171,17 @@ def check_histories(res, rendezvous, universe, keys, hname, maxlen, rng, exhaust
             res.count("histories_seeded_through_constructor")
         valid = True
         prev = {k: (h.get_node(k) if cur else None) for k in keys}
+        if mode == 1 and len(seq) < 2:
+            continue
+        if mode == 1:
+            # sparse look-ups: keys are looked up only after some of the steps (bit i of the history's number), so that
+            # several membership changes happen between two look-ups; only the final placement is judged here
+            valid, cur = _sparse_history(h, cur, seq, keys, si_)
+            if not valid:
+                continue
+            res.count("histories_with_sparse_lookups")
+            prev = {k: (h.get_node(k) if cur else None) for k in keys}
+            seq = ()
         for ev, u in seq:
             if ev == "add":
                 h.add_node(u)
@@ -194,8 +217,26 @@ def check_histories(res, rendezvous, universe, keys, hname, maxlen, rng, exhaust
         if bad:
             res.violation("history-dependent:%s" % hname,
                           "history %r ends with set %r but key %r -> %r; a fresh hasher on that set says %r"
-                          % (seq, sorted(cur), bad[0], prev[bad[0]], want.get(bad[0]) if cur else None), ("hist", seq, hname, bad[0]))
-        res.case(("hist", seq, hname) if len(cur) >= 2 else None)
+                          % (seq0, sorted(cur), bad[0], prev[bad[0]], want.get(bad[0]) if cur else None), ("hist", seq0, hname, bad[0]))
+        res.case(("hist", seq0, hname, mode) if len(cur) >= 2 else None)
+
+
+def _sparse_history(h, cur, seq, keys, mask):
+    cur = list(cur)
+    for i, (ev, u) in enumerate(seq):
+        if ev == "add":
+            h.add_node(u)
+            if u not in cur:
+                cur.append(u)
+        else:
+            if u not in cur:
+                return False, cur
+            h.remove_node(u)
+            cur.remove(u)
+        if (mask >> i) & 1 and cur:
+            for k in keys:
+                h.get_node(k)
+    return True, cur
 
 
 DIGEST_SCRIPT = r"""
@@ -269,6 +310,32 @@ def check_hashclient(res, tier, rng):
         if diff:
             res.violation("spelling-dependent-placement", "spelling %r places %r on %r, tuples place it on %r"
                           % (sp, diff[0], r[diff[0]], results[0][diff[0]]), ("hc-spelling", sp, diff[0]))
+    # IPv6 literals: the node is still named '<host>:<port>' (what other rendezvous implementations are given)
+    v6 = [("::1", 11211), ("2001:db8::2", 11211), ("fe80::3", 11212), ("h4", 11211)]
+    v6_results = []
+    for spelling in (list(v6), ["[::1]:11211", "2001:db8::2:11211", ("fe80::3", 11212), "h4"], list(reversed(v6))):
+        net = FakeNet()
+        servers = {"%s:%d" % (host, port): net.add_server(host, port) for host, port in v6}
+        hc = hashmod.HashClient(spelling, socket_module=net, allow_unicode_keys=True)
+        placed = {}
+        for k in keys[:150]:
+            before = {n: len(s.cmdlog) for n, s in servers.items()}
+            hc.get(k)
+            hit = [n for n, s in servers.items() if len(s.cmdlog) > before[n]]
+            placed[k] = hit
+            exp = refs.rendezvous_ref(list(servers), k)
+            res.count("contacts_vs_rule")
+            if exp is not NotImplemented and hit != [exp]:
+                res.violation("contacted-server-is-not-the-winner:ipv6",
+                              "HashClient(%r).get(%r) contacted %r, rule over nodes %r says %r" % (spelling, k, hit, sorted(servers), exp),
+                              ("hc6", spelling, k))
+        v6_results.append(placed)
+        res.case(("hc6", repr(spelling)))
+    for sp, r in zip(("bracketed strings", "reversed"), v6_results[1:]):
+        diff = [k for k in keys[:150] if r[k] != v6_results[0][k]]
+        if diff:
+            res.violation("spelling-dependent-placement:ipv6", "%s: %r placed on %r, tuples place it on %r"
+                          % (sp, diff[0], r[diff[0]], v6_results[0][diff[0]]), ("hc6-spelling", sp, diff[0]))
     # add_server(host, port) and unix spellings
     net = FakeNet()
     net.add_server("h1", 11211)
